@@ -84,6 +84,34 @@ var ScopePolicyOIDs = func() [][]int {
 	return o
 }()
 
+// ArithRelatives: identifiers that differ from o but coincide with it under the usual ways of packing arcs into
+// machine words - a carry between neighbouring arcs (a, b) -> (a-k, b+256k), (0, 256a+b), and single arcs moved by
+// 2^8, 2^16, 2^24. (Arcs of 2^31 and more are rejected by the parser.)
+func ArithRelatives(o []int) [][]int {
+	var out [][]int
+	cp := func() []int { return append([]int{}, o...) }
+	for i := 2; i < len(o); i++ {
+		for _, d := range []int{1 << 8, 1 << 16, 1 << 24} {
+			v := cp()
+			v[i] += d
+			out = append(out, v)
+		}
+		if i+1 < len(o) {
+			for k := 1; k <= 2 && k <= o[i]; k++ {
+				v := cp()
+				v[i], v[i+1] = o[i]-k, o[i+1]+256*k
+				out = append(out, v)
+			}
+			if o[i] > 2 {
+				v := cp()
+				v[i], v[i+1] = 0, o[i]*256+o[i+1]
+				out = append(out, v)
+			}
+		}
+	}
+	return out
+}
+
 var OtherPolicyOIDs = [][]int{{2, 5, 29, 32, 0}, {1, 3, 6, 1, 4, 1, 99999, 2}, {2, 23, 140, 1, 5, 5, 1}, {2, 23, 140, 1, 2}, {2, 23, 140, 1, 4, 2}}
 
 var AllEKUs = [][]int{EKUAny, EKUServerAuth, EKUClientAuth, EKUEmail, EKUCodeSign, EKUOCSP, EKUTimeStamp, EKUUnknown}
